@@ -36,8 +36,8 @@ from . import (
     InvalidFileContents,
     NoSuchItem,
     Store,
-    open_by_content_type,
     open_by_extension,
+    open_for_import,
 )
 from .config import FILENAME as CONFIG_FILENAME
 from .config import FileBasedCollectionMetadata
@@ -188,10 +188,7 @@ class VdirStore(Store):
           DuplicateUidError: when the uid already exists
         Returns: etag
         """
-        if content_type is None:
-            fi = open_by_extension(data, name, self.extra_file_handlers)
-        else:
-            fi = open_by_content_type(data, content_type, self.extra_file_handlers)
+        fi = open_for_import(data, name, content_type, self.extra_file_handlers)
         if name is None:
             name = str(uuid.uuid4())
             extension = MIMETYPES.guess_extension(content_type)
